@@ -1,3 +1,167 @@
-import QtyModel.Tables
+import QtyModel.Lemmas.Approx
+import QtyModel.Spec.Temperature
+import QtyModel.Generated.TempTable
+import QtyModel.Generated.Catalogue
+/-
+  C14 — Table-driven conversions apply the declared affine map.
+
+  Property theorems only.  The statements about `ConversionTable::convert` hold for
+  EVERY table (any list of rows) and every quantity; those about the temperature
+  table are kernel evaluations over the regenerated rows (`Generated/TempTable.lean`)
+  against the independent formulas of `Spec/Temperature.lean`.
+-/
 namespace Qty.C14
+open Qty
+
+variable {A : Type} (R : Arith A)
+
+/-- the value is returned unchanged when it already has the target unit -/
+theorem conv_same_unit (rows : List (ConvRow A)) (q : Q A Nat) :
+    tconv R rows q q.unit = .ok (some q) := by
+  simp [tconv]
+
+/-- otherwise: amount × factor + offset of the FIRST table entry for that (from, to) pair -/
+theorem conv_first_row (rows : List (ConvRow A)) (q : Q A Nat) (tgt : Nat) (h : q.unit ≠ tgt)
+    (pre post : List (ConvRow A)) (r : ConvRow A) (hr : rows = pre ++ r :: post)
+    (hmatch : r.fromU = q.unit ∧ r.toU = tgt)
+    (hpre : ∀ p ∈ pre, ¬ (p.fromU = q.unit ∧ p.toU = tgt)) :
+    tconv R rows q tgt = (do
+      let m ← R.mul q.amount r.factor
+      return some ⟨← R.add m r.offset, tgt⟩) := by
+  have hfind : rows.find? (fun r => r.fromU == q.unit && r.toU == tgt) = some r := by
+    rw [hr, List.find?_append]
+    have hnone : pre.find? (fun r => r.fromU == q.unit && r.toU == tgt) = none := by
+      rw [List.find?_eq_none]
+      intro p hp
+      simpa using hpre p hp
+    rw [hnone]
+    simp [hmatch.1, hmatch.2]
+  unfold tconv
+  rw [if_neg h, hfind]
+
+/-- and nothing when there is no such entry -/
+theorem conv_none (rows : List (ConvRow A)) (q : Q A Nat) (tgt : Nat) (h : q.unit ≠ tgt)
+    (hno : ∀ p ∈ rows, ¬ (p.fromU = q.unit ∧ p.toU = tgt)) :
+    tconv R rows q tgt = .ok none := by
+  have hfind : rows.find? (fun r => r.fromU == q.unit && r.toU == tgt) = none := by
+    rw [List.find?_eq_none]
+    intro p hp
+    simpa using hno p hp
+  unfold tconv
+  rw [if_neg h, hfind]
+
+/-- the affine map is computed within the propagated rounding bound: if the row's factor and
+offset realise the published constants `f`, `o`, the result realises `x·f + o` -/
+theorem conv_affine_sound {M : ErrModel} (L : Laws R M) (rows : List (ConvRow A)) (q : Q A Nat) (tgt : Nat)
+    (h : q.unit ≠ tgt) (r : ConvRow A)
+    (hfind : rows.find? (fun r => r.fromU == q.unit && r.toU == tgt) = some r)
+    (x : Rat) (f o : Approx) (hx : R.val q.amount = some x)
+    (hf : Realises R r.factor f) (ho : Realises R r.offset o) (hfe : 0 ≤ f.err) (hoe : 0 ≤ o.err)
+    (hok : (Approx.add M (Approx.mul M (Approx.exact x) f) o).ok = true) :
+    ∃ res, tconv R rows q tgt = .ok (some res) ∧ res.unit = tgt ∧
+      Realises R res.amount (Approx.add M (Approx.mul M (Approx.exact x) f) o) := by
+  have hokm : (Approx.mul M (Approx.exact x) f).ok = true := by
+    simp only [Approx.add, Bool.and_eq_true] at hok
+    exact hok.1.1.1.1
+  have hx0 : (0 : Rat) ≤ (Approx.exact x).err := by simp [Approx.exact]
+  obtain ⟨m, hmul, hm⟩ := mul_sound R L q.amount r.factor (Approx.exact x) f
+    (exact_sound R _ _ hx) hf hx0 hfe hokm
+  obtain ⟨c, hadd, hc⟩ := add_sound R L m r.offset _ o hm ho
+    (mul_err_nonneg L.wf _ _ hx0 hfe) hoe hok
+  refine ⟨⟨c, tgt⟩, ?_, rfl, hc⟩
+  unfold tconv
+  rw [if_neg h, hfind]
+  simp [hmul, hadd, bind, Except.bind, pure, Except.pure]
+
+/-! ### the predefined temperature table -/
+
+/-- constant name ↦ unit name of `Temperature`, through the model of the macro -/
+def tempNames : List (Text × Text) :=
+  match Gen.Catalogue.items.find? (fun it => it.name == [84, 101, 109, 112, 101, 114, 97, 116, 117, 114, 101]) with
+  | some it => match MacroFront.expand it with
+    | .ok d => d.units.map (fun u => (u.constName, u.name))
+    | .error _ => []
+  | none => []
+
+def nameOfConst (c : Text) : Text := ((tempNames.find? (fun p => p.1 == c)).map (·.2)).getD []
+
+/-- the table has a row for every ordered pair of distinct units of Kelvin, °C, °F -/
+theorem temp_covers_all_pairs :
+    tempNames.length = 3 ∧
+    tempNames.all (fun a => tempNames.all (fun b =>
+      a.1 == b.1 || Gen.Temp.rows.any (fun r => r.1 == a.1 && r.2.1 == b.1))) = true := by
+  decide +kernel
+
+/-- every row's factor and offset literal is the constant of the exact physical formula,
+up to half a unit in the 18th decimal place (5/9 and 45967/180 do not terminate) -/
+theorem temp_rows_match_formulas :
+    Gen.Temp.rows.all (fun r =>
+      match Spec.Temp.formula (nameOfConst r.1) (nameOfConst r.2.1) with
+      | some (F, O) =>
+        decide (ratAbs (r.2.2.1.value - F) ≤ 1 / (2 * pow10 18)) &&
+        decide (ratAbs (r.2.2.2.value - O) ≤ 1 / (2 * pow10 18))
+      | none => false) = true := by
+  decide +kernel
+
+/-- the six cases of the exact formula -/
+theorem formula_cases (a b : Text) (F O : Rat) (h : Spec.Temp.formula a b = some (F, O)) :
+    (a = Spec.Temp.kelvin ∧ b = Spec.Temp.celsius ∧ F = 1 ∧ O = -27315 / 100) ∨
+    (a = Spec.Temp.celsius ∧ b = Spec.Temp.kelvin ∧ F = 1 ∧ O = 27315 / 100) ∨
+    (a = Spec.Temp.kelvin ∧ b = Spec.Temp.fahrenheit ∧ F = 9 / 5 ∧ O = -45967 / 100) ∨
+    (a = Spec.Temp.fahrenheit ∧ b = Spec.Temp.kelvin ∧ F = 5 / 9 ∧ O = 45967 / 100 * (5 / 9)) ∨
+    (a = Spec.Temp.celsius ∧ b = Spec.Temp.fahrenheit ∧ F = 9 / 5 ∧ O = 32) ∨
+    (a = Spec.Temp.fahrenheit ∧ b = Spec.Temp.celsius ∧ F = 5 / 9 ∧ O = -32 * (5 / 9)) := by
+  unfold Spec.Temp.formula at h
+  simp only [Bool.and_eq_true, beq_iff_eq] at h
+  split_ifs at h with h1 h2 h3 h4 h5 h6 <;>
+    simp only [Option.some.injEq, Prod.mk.injEq] at h <;>
+    obtain ⟨rfl, rfl⟩ := h <;> simp [*]
+
+theorem kelvin_ne_celsius : Spec.Temp.kelvin ≠ Spec.Temp.celsius := by decide
+theorem kelvin_ne_fahrenheit : Spec.Temp.kelvin ≠ Spec.Temp.fahrenheit := by decide
+theorem celsius_ne_fahrenheit : Spec.Temp.celsius ≠ Spec.Temp.fahrenheit := by decide
+
+/-- closes a goal `False`-by-name-clash: `h : n₁ = n₂` for two distinct unit names -/
+local macro "name_clash " h:ident : tactic =>
+  `(tactic| exact absurd $h (by
+      first
+        | exact kelvin_ne_celsius | exact kelvin_ne_fahrenheit | exact celsius_ne_fahrenheit
+        | exact kelvin_ne_celsius.symm | exact kelvin_ne_fahrenheit.symm
+        | exact celsius_ne_fahrenheit.symm))
+
+/-- the exact formulas are mutually inverse -/
+theorem formula_inverse (a b : Text) (F O F' O' : Rat)
+    (h1 : Spec.Temp.formula a b = some (F, O)) (h2 : Spec.Temp.formula b a = some (F', O')) :
+    F * F' = 1 ∧ O * F' + O' = 0 := by
+  rcases formula_cases _ _ _ _ h1 with h | h | h | h | h | h <;>
+  obtain ⟨rfl, rfl, rfl, rfl⟩ := h <;>
+  rcases formula_cases _ _ _ _ h2 with h | h | h | h | h | h <;>
+  obtain ⟨ha, hb, rfl, rfl⟩ := h <;>
+  first
+    | name_clash ha
+    | name_clash hb
+    | (constructor <;> norm_num)
+
+/-- and compose consistently: converting a → b → c is converting a → c -/
+theorem formula_compose (a b c : Text) (F1 O1 F2 O2 F3 O3 : Rat)
+    (h1 : Spec.Temp.formula a b = some (F1, O1)) (h2 : Spec.Temp.formula b c = some (F2, O2))
+    (h3 : Spec.Temp.formula a c = some (F3, O3)) :
+    F1 * F2 = F3 ∧ O1 * F2 + O2 = O3 := by
+  rcases formula_cases _ _ _ _ h1 with h | h | h | h | h | h <;>
+  obtain ⟨rfl, rfl, rfl, rfl⟩ := h <;>
+  rcases formula_cases _ _ _ _ h2 with h | h | h | h | h | h <;>
+  obtain ⟨ha, rfl, rfl, rfl⟩ := h <;>
+  first
+    | name_clash ha
+    | (rcases formula_cases _ _ _ _ h3 with h | h | h | h | h | h <;>
+       obtain ⟨ha', hb', rfl, rfl⟩ := h <;>
+       first
+        | name_clash ha'
+        | name_clash hb'
+        | (constructor <;> norm_num))
+
+/-- non-vacuity: 20 °C → °F through a one-row table in the decimal back-end -/
+example : tconv Dec.arith [⟨0, 1, ⟨18, 1⟩, ⟨32, 0⟩⟩] ⟨⟨20, 0⟩, 0⟩ 1 = .ok (some ⟨⟨680, 1⟩, 1⟩) := by
+  decide +kernel
+
 end Qty.C14
